@@ -534,7 +534,7 @@ func rulePassAll(c *Ctx, r *Report, y *ydFunc, rule string) int {
 			}
 			inspectNoLit(nd, func(m ast.Node) bool {
 				if call, ok := m.(*ast.CallExpr); ok {
-					if fo := calleeOfExpr(info, call); fo != nil && fo.Pkg() == y.f.pkg.Types && fo.Name() == "read" {
+					if fo := calleeOfExpr(info, call); fo != nil && fo.Pkg() == y.f.pkg.Types && isRecordReader(fo) {
 						readBlocks = append(readBlocks, b)
 					}
 				}
@@ -637,19 +637,15 @@ func rangeFuncLoops(f *astFunc) []*ast.RangeStmt {
 	return out
 }
 
-// rulesPassAllFor applies PASS-ALL to the iterator literals of one package (iter, Reader).
-func rulesPassAllFor(c *Ctx, r *Report, rel string, names []string, floor int) {
+// rulesPassAllFor applies PASS-ALL to every iterator literal of one package (whatever it is called).
+func rulesPassAllFor(c *Ctx, r *Report, rel string, floor int) {
 	n := 0
 	for _, y := range allYD(c.Pkgs) {
 		if relPkg(y.f.pkg.PkgPath) != rel {
 			continue
 		}
-		for _, nm := range names {
-			if y.f.name == rel+"."+nm {
-				r.analysed(y.f.name)
-				n += rulePassAll(c, r, y, "PASS-ALL")
-			}
-		}
+		r.analysed(y.f.name)
+		n += rulePassAll(c, r, y, "PASS-ALL")
 	}
 	r.floor("PASS-ALL", n, floor, "iterator layers between read() and the consumer in "+rel)
 }
@@ -688,4 +684,17 @@ func containsStreamRead(info *types.Info, n ast.Node) bool {
 		return true
 	})
 	return found
+}
+
+// isRecordReader: a method of the package with no parameters returning (*Record, error) — the per-record
+// decoder an iterator layer loops over (whatever it is called).
+func isRecordReader(fo *types.Func) bool {
+	sig := fo.Type().(*types.Signature)
+	if sig.Recv() == nil || sig.Params().Len() != 0 || sig.Results().Len() != 2 {
+		return false
+	}
+	if _, ok := sig.Results().At(0).Type().(*types.Pointer); !ok {
+		return false
+	}
+	return types.Identical(sig.Results().At(1).Type(), types.Universe.Lookup("error").Type())
 }
